@@ -33,7 +33,8 @@ import engine as E  # noqa: E402
 TOOL_DIR = os.path.join(E.VERIF, "tools", "srcmap")
 BASELINE = E.VERIF + "/tools/source_fingerprint.json"
 SECTIONS = ("items", "consts", "statics", "types", "macros", "preambles")
-ELEM_SIZES = (1, 2, 4, 8, 16, 96)  # size_of of the element types used by the harness
+ELEM_SIZES = (1, 16, 256)  # size_of of the element types used by the harness (u8; E/NE; B/NB)
+OTHER_SIZES = (2, 4, 8, 32)
 
 
 # ---------------------------------------------------------------- scanner
@@ -304,16 +305,21 @@ def check(pid, repo=None):
 
 
 def thresholds(result):
-    """Capacities / lengths at which a widened search should look, from the new literals."""
-    out = set()
-    for lit in result.get("new_literals", []):
-        if not 2 <= lit <= 2 ** 20:
-            continue
-        c = [lit - 1, lit, lit + 1, 2 * lit]
-        for s in ELEM_SIZES:
-            c += [lit // s, lit // s + 1, 2 * (lit // s) + 2]
-        out |= {x for x in c if 2 <= x <= 2 ** 21}
-    return sorted(x for x in out if x > 8)
+    """Capacities / lengths at which a widened search should look, from the new literals; most telling first:
+    the largest literal (usually the effective constant, e.g. the product 64 * 1024) divided by the element sizes
+    of the harness, then its neighbours, then the same for the smaller literals."""
+    out = []
+    lits = sorted((l for l in result.get("new_literals", []) if 2 <= l <= 2 ** 20), reverse=True)
+    for rnd in range(3):
+        for lit in lits:
+            if rnd == 0:
+                c = [lit // s for s in ELEM_SIZES] + [lit // s + 1 for s in ELEM_SIZES]
+            elif rnd == 1:
+                c = [lit - 1, lit, lit + 1] + [2 * (lit // s) + 2 for s in ELEM_SIZES]
+            else:
+                c = [2 * lit] + [lit // s for s in OTHER_SIZES] + [lit // s + 1 for s in OTHER_SIZES]
+            out += [x for x in c if 8 < x <= 2 ** 21 and x not in out]
+    return out
 
 
 # ---------------------------------------------------------------- command line
